@@ -90,11 +90,13 @@ def build_impl():
     return binp, p.stdout
 
 
-def run_extract():
-    """Regenerate lean/DeltaModel/Generated/*.lean from REPO. Returns (ok, log, hashes)."""
+def run_extract(only=()):
+    """Regenerate lean/DeltaModel/Generated/*.lean from REPO. `only`: the generated files this
+    check depends on (they must regenerate; other generators run best-effort).
+    Returns (ok, log, hashes)."""
     with Lock("extract"):
         p = subprocess.run([sys.executable, os.path.join(ROOT, "tools", "extract.py"), REPO,
-                            os.path.join(LEAN, "DeltaModel", "Generated")],
+                            os.path.join(LEAN, "DeltaModel", "Generated")] + list(only),
                            stdout=subprocess.PIPE, stderr=subprocess.STDOUT, text=True)
     hashes = {}
     gdir = os.path.join(LEAN, "DeltaModel", "Generated")
@@ -436,7 +438,9 @@ def main(argv):
         return 2
 
     # 2. translator: regenerate the extracted tables
-    ok, xlog, rep.generated_hashes = run_extract()
+    ok, xlog, rep.generated_hashes = run_extract(getattr(mod, "GENERATED", ()))
+    rep.generated_hashes = {k: v for k, v in rep.generated_hashes.items()
+                            if not getattr(mod, "GENERATED", ()) or k[:-5] in mod.GENERATED}
     if not ok:
         rep.broken_proofs.append("tools/extract.py: " + xlog[-600:])
 
